@@ -766,6 +766,7 @@ func runC15Once(c C15Case) (out ev.Outcome, overloaded bool) {
 		classes["hascfg:no"] = true
 	}
 	var hist []string
+	lenient := map[string]bool{}
 	note := func(f string, a ...any) { hist = append(hist, fmt.Sprintf(f, a...)) }
 	finish := func(o ev.Outcome) ev.Outcome {
 		keys := make([]string, 0, len(classes))
@@ -778,6 +779,10 @@ func runC15Once(c C15Case) (out ev.Outcome, overloaded bool) {
 		// primary class first
 		o.Classes = append([]string{"kind:" + ent.Kind}, keys...)
 		o.Classes = dedup(o.Classes)
+		for k := range lenient {
+			o.Lenient = append(o.Lenient, k)
+		}
+		sort.Strings(o.Lenient)
 		o.History = hist
 		return o
 	}
@@ -858,14 +863,13 @@ func runC15Once(c C15Case) (out ev.Outcome, overloaded bool) {
 		} else {
 			// The stub tears the connection down as soon as Start sees the failed
 			// configuration; the error response can lose that race. Still "rejected".
-			out.Lenient = append(out.Lenient, cfgClass+": error response lost to connection teardown")
+			lenient[cfgClass+": error response lost to connection teardown"] = true
 		}
 		if cfgClass == "cfg:rejected" && startErr == nil {
 			return fail("Configure asked for unhandled events %s and was rejected (%v) but Start returned nil",
 				maskStr(api.EventMask(c.CfgMask)&^impl), cerr)
 		}
-		o := finish(ev.Outcome{Lenient: out.Lenient})
-		return o, false
+		return finish(ev.Outcome{}), false
 	}
 	if cerr != nil {
 		return fail("Configure failed (%v), want events=%s", cerr, maskStr(wantMask))
@@ -895,6 +899,7 @@ func runC15Once(c C15Case) (out ev.Outcome, overloaded bool) {
 
 	// --- requests -----------------------------------------------------------------------------------
 	sawImpl, sawUnimpl := false, false
+	expected := len(s.rec.snapshot()) // invocations so far (Configure), all judged above
 	for i, r := range c.Reqs {
 		e := api.Event(r.Event)
 		isImpl := impl&evbit(e) != 0
@@ -978,8 +983,16 @@ func runC15Once(c C15Case) (out ev.Outcome, overloaded bool) {
 		sawImpl = true
 		classes["ev:"+evName(e)+":implemented"] = true
 		if wantMask&evbit(e) == 0 {
-			classes["ev:sent-unsubscribed"] = true // legal: the runtime filters, the stub dispatches by handler
+			// Implemented but not subscribed: the runtime filters by the mask and never sends
+			// this; the stub dispatches by handler presence. The statement does not say which
+			// of the two a stub has to do, so "not delivered, empty success" is accepted too.
+			classes["ev:sent-unsubscribed"] = true
+			if len(inv) == 0 && rerr == nil && proto.Equal(got, empty) {
+				lenient["unsubscribed event not delivered"] = true
+				continue
+			}
 		}
+		expected++
 
 		// "delivered exactly once to the handler for that event"
 		if len(inv) != 1 || inv[0].Handler != evHandler[e] {
@@ -1029,8 +1042,8 @@ func runC15Once(c C15Case) (out ev.Outcome, overloaded bool) {
 		}
 	}
 	// nothing ran behind our back
-	if total := len(s.rec.snapshot()); total != countExpected(ent, c) {
-		return fail("%d handler invocations in total, want %d: %s", total, countExpected(ent, c), handlersOf(s.rec.snapshot()))
+	if total := len(s.rec.snapshot()); total != expected {
+		return fail("%d handler invocations in total, want %d: %s", total, expected, handlersOf(s.rec.snapshot()))
 	}
 
 	strict := impl != validMask
@@ -1039,19 +1052,6 @@ func runC15Once(c C15Case) (out ev.Outcome, overloaded bool) {
 		classes["nontrivial"] = true
 	}
 	return finish(o), false
-}
-
-func countExpected(ent typeEntry, c C15Case) int {
-	n := 0
-	if ent.HasConfigure {
-		n++
-	}
-	for _, r := range c.Reqs {
-		if ent.Mask&evbit(api.Event(r.Event)) != 0 {
-			n++
-		}
-	}
-	return n
 }
 
 func cfgErr(c C15Case) error {
